@@ -58,8 +58,9 @@ def _case_class(c):
     en = sorted(h["n"].lower() for h in c["ehdr"])
     on = sorted(o["n"].lower() for o in c["opts"])
     overlap = sorted(set(en) & set(on))
-    return "fmt=%s host=%s opthost=%s overlap=%s" % (c["fmt"], "ammo" if c["host"] else "none",
-                                                     "yes" if "host" in on else "no", ",".join(overlap) or "-")
+    uriclass = "rfc" if re.fullmatch(r"[A-Za-z0-9\-._~!$&'()*+,;=:@/?%]*", c["uri"]) else "nonrfc"
+    return "fmt=%s host=%s opthost=%s overlap=%s uri=%s" % (c["fmt"], "ammo" if c["host"] else "none",
+                                                            "yes" if "host" in on else "no", ",".join(overlap) or "-", uriclass)
 
 
 def validate_cases(v, obs_path, cfg, timeout=900):
@@ -160,7 +161,7 @@ def run(tier, v):
     }
     return "model_checking", cov, [
         "case alphabets: header names X-A (entry+option), x-c/X-C (same name, other spelling), User-Agent, X-B, option Host; "
-        "RFC-valid request URIs; printable bodies; methods GET/POST/PURGE (+PUT/DELETE/PATCH/HEAD/OPTIONS thorough)",
+        "RFC-valid request URIs; printable bodies; methods GET/POST/PURGE (+DELETE/HEAD/OPTIONS thorough)",
         "extra request headers tolerated at the target: Go transport defaults only (User-Agent if the entry has none, "
         "Content-Length, Transfer-Encoding, Accept-Encoding iff compression enabled)",
         "connection part: sequential shots per instance, target keeps connections open, loopback; N <= 4 instances",
